@@ -346,6 +346,12 @@ theorem C12_s5_roundtrip (ds : List Bytes) (hwf : ds.all wfS5 = true) (chunks : 
     have : 2 + d.length + (encodeAll ds).length - (2 + d.length) = (encodeAll ds).length := by omega
     rw [this]; exact ih hds
 
+/-- What the driver executes (`tcpRunFast` / `udpRunFast`: completion phases cut short as soon as a step changes
+nothing) is exactly the run the theorems above speak about. -/
+theorem C12_driver_runs_the_model (A B : EP) (σ : List TTok) (v : Variant) (c : UdpCase) (τ : List UTok) :
+    tcpRunFast A B σ = tcpRun A B (tcpComplete A B σ) ∧ udpRunFast v c τ = udpRun v c (udpComplete c τ) :=
+  ⟨tcpRunFast_eq A B σ, udpRunFast_eq v c τ⟩
+
 /-! ## The two defects of the code as found (repaired in the worktree; kept as witnesses) -/
 
 /-- C12-a as found: the tunnel ends inside a record (`00 05 'a' 'b'`, then EOF) — the loop re-reads
